@@ -244,9 +244,12 @@ def run(res, rng, tier, known):
     # --- result dtypes on all 16 ordered dtype pairs, tied to the Lean model DType.promote (theorems TT.C03d)
     from util import dtype_cases
     sameN = lambda rng_, d, n: [[rng_.randint(1, 3) for _ in range(d)]] * n
+    anyN = lambda rng_, d, n: [[rng_.randint(1, 3) for _ in range(d)] for _ in range(n)]
     cases += dtype_cases(rng, [("add", lambda xs: xs[0] + xs[1], lambda ds: ds[0] + ds[1], sameN),
                                ("sub", lambda xs: xs[0] - xs[1], lambda ds: ds[0] - ds[1], sameN),
-                               ("mul", lambda xs: xs[0] * xs[1], lambda ds: ds[0] * ds[1], sameN)], "binary")
+                               ("mul", lambda xs: xs[0] * xs[1], lambda ds: ds[0] * ds[1], sameN),
+                               ("kron", lambda xs: torchtt.kron(xs[0], xs[1]), lambda ds: tn.tensordot(ds[0], ds[1], dims=0), anyN),
+                               ("pow", lambda xs: xs[0] ** xs[1], lambda ds: tn.tensordot(ds[0], ds[1], dims=0), anyN)], "binary")
     run_cases(res, cases, known)
     return {"level": LEVEL, "rule": RULE, "assumptions": ASSUMPTIONS,
             "not_by_theorem": ["dtype rules for python / numpy / torch SCALAR operands (oracle: torch result_type); for TT operands the dtype is tied to DType.promote (theorems C03d)",
